@@ -42,6 +42,15 @@ library's loop over send(); the peer receives exactly the accepted bytes) and `S
     were made, an unfinished frame only where nothing is sent after it.  The same scenario at transport level
     is the code-shaped model ThriftWireTxn (WireCheck embedded, model-checked; the variant that keeps the
     connection is a counterexample generator), every scenario replayed on the real SocketTransportSink.
+(f) deeper interface hierarchies: gen_py_x/deep (Deep extends Derived extends Base) and gen_py_x/app (an
+    application-side Python subclass of Derived.Iface): methods of the interface itself, of its parent and of
+    its grandparent through the real stack.
+(g) large replies through the builder's default protocol factory: texts of 1 MiB-1 / 1 MiB / 1 MiB+1 UTF-8
+    bytes (ASCII, 2-, 3-, 4-byte code points: bytes != characters), lists of 65535 / 65536 / 65537 (and
+    200000) elements, declared and application exceptions carrying such texts, a struct carrying both.  Long
+    texts / lists / reply streams travel in RUN FORM in the traces ([{p: pattern, n: count}, ...]; to_runs is a
+    lossless syntactic compression); the oracle encodes the run form exactly (TBinaryWire Rep / Utf8Runs,
+    RunLaw in TBinaryWireCheck) and TLC decides every verdict on the full megabyte streams (about 1-2 s each).
 """
 import random
 import struct
@@ -65,6 +74,9 @@ ASSUMPTIONS = [
   'deadline) has no Call event: nothing is prescribed for its own bytes; the per-connection Wire clauses apply. '
   'Quiescent points (cuts) are taken when every call made so far has returned, failed or timed out. No EOF / '
   'truncated replies in these scenarios (an EOF legitimately faults the sink of a single-endpoint client)',
+  'large replies: 8 boundary cases per quick run (6 fixed + 2 drawn from a catalogue of 24), all 24 in thorough; '
+  'maps / sets at the 64 Ki boundary are not covered (65537 distinct keys cannot be run-compressed; the codec '
+  'applies one and the same container limit to lists, sets and maps)',
   'partial sends are exhaustive (TLC) for payloads up to 4 (quick) / 8 (thorough) bytes: every split of the '
   'frame across send() calls; real calls (up to ~4 KiB frames) are sampled with a fixed per-send() limit '
   'in {1, 3, 7, 64, 1000}',
